@@ -16,6 +16,11 @@ use std::io::{Read, Write};
 const TCHAR: &[u8] = b"!#$%&'*+-.^_`|~0123456789abcdefghijklmnopqrstuvwxyzABCDEFGHIJKLMNOPQRSTUVWXYZ";
 const PCHAR: &[u8] = b"abcXYZ019-._~!$&'()*+,;=:@";
 
+/// Bytes above 127 for the request-target: UTF-8 text of 2, 3 and 4 bytes, and sequences that are not UTF-8 (a lone lead
+/// byte, a lone continuation byte, 0xFF, an overlong form, a surrogate, a code point above U+10FFFF, Latin-1 e-acute).
+const HIGH: [&[u8]; 12] = [b"\xc3\xa9", b"\xe2\x82\xac", b"\xf0\x9f\x98\x80", b"\xc2\x80", b"\xef\xbf\xbd", b"\xc3", b"\xa9", b"\xff",
+                           b"\xc0\xaf", b"\xed\xa0\x80", b"\xf4\x90\x80\x80", b"\xe9"];
+
 pub fn gen_head(r: &mut StdRng) -> Vec<u8> {
     let mut h = pick(r, TCHAR, 1, 8);
     h.push(b' ');
@@ -28,10 +33,17 @@ pub fn gen_head(r: &mut StdRng) -> Vec<u8> {
         if r.gen_bool(0.1) {
             h.extend(b"%4a");
         }
+        if r.gen_bool(0.04) {
+            h.extend(*HIGH.choose(r).unwrap());
+        }
     }
     if r.gen_bool(0.4) {
         h.push(b'?');
         h.extend(pick(r, b"abc019-._~!$&()*+,;=:@/?", 0, 10));
+        if r.gen_bool(0.06) {
+            h.extend(*HIGH.choose(r).unwrap());
+            h.extend(pick(r, b"abc=&", 0, 3));
+        }
     }
     h.extend(b" HTTP/1.1\r\n");
     let maxf = if r.gen_bool(0.1) { 40 } else { 4 };
